@@ -316,9 +316,14 @@ def read_request(s: bytes, pos: int) -> Msg:
             raise Reject("asterisk-form-not-options", pos)
     else:
         a = _ABS.match(target)
-        if not a:
+        if not a and b"://" in target:
+            # absolute-form look-alike with a scheme RFC 3986 does not allow ("0http://h/"): URI-level validity of
+            # an absolute-form target does not affect framing; either verdict is allowed (G7)
+            msg.grey.append("G7-authority")
+            a = None
+        elif not a:
             raise Reject("target-form", pos, repr(target[:40]))
-        auth = a.group(2)
+        auth = a.group(2) if a else b"x"
         if b"@" in auth:
             msg.grey.append("G7-authority")
         elif not _AUTH.match(auth):
@@ -329,7 +334,7 @@ def read_request(s: bytes, pos: int) -> Msg:
                 msg.grey.append("G7-authority")
         if b"#" in target:
             msg.grey.append("G5-target-fragment")
-        if a.group(1).lower() not in (b"http", b"https"):
+        if a is not None and a.group(1).lower() not in (b"http", b"https"):
             msg.grey.append("G7-authority")
     fields, pos2, longest = _parse_fields(s, nxt, "header", strict_dup=True)
     msg.fields = fields
